@@ -215,7 +215,29 @@ def t_range(t):
             n.iter = ast.Call(func=ast.Name(id="range", ctx=ast.Load()), args=[ast.Call(func=ast.Name(id="len", ctx=ast.Load()), args=[n.iter.args[0]], keywords=[])], keywords=[])
 
 
-ALL = {"reorder": t_reorder, "range": t_range, "ltswap": t_ltswap, "noelse": t_noelse, "addelse": t_addelse, "eqswap": t_eqswap, "ifstmt": t_ifstmt, "reprint": t_reprint, "locals": t_locals, "nparams": t_nparams, "asserts": t_asserts, "temps": t_temps, "annotate": t_annotate, "split": t_split, "flip": t_flip}
+def t_fstring(t):
+    """'...{}...'.format(a, b)  ->  f'...{a}...{b}...'   (what pyupgrade does; positional `{}` fields only, no starred arguments)"""
+    class T(ast.NodeTransformer):
+        def visit_Call(self, n):
+            self.generic_visit(n)
+            if isinstance(n.func, ast.Attribute) and n.func.attr == "format" and isinstance(n.func.value, ast.Constant) and isinstance(n.func.value.value, str) and not n.keywords \
+                    and not any(isinstance(a, ast.Starred) for a in n.args):
+                tmpl = n.func.value.value
+                parts = tmpl.split("{}")
+                if len(parts) - 1 != len(n.args) or "{" in tmpl.replace("{}", "") or "}" in tmpl.replace("{}", ""):
+                    return n
+                vals = []
+                for k, p_ in enumerate(parts):
+                    if p_:
+                        vals.append(ast.Constant(value=p_))
+                    if k < len(n.args):
+                        vals.append(ast.FormattedValue(value=n.args[k], conversion=-1))
+                return ast.JoinedStr(values=vals)
+            return n
+    return T().visit(t)
+
+
+ALL = {"fstring": t_fstring, "reorder": t_reorder, "range": t_range, "ltswap": t_ltswap, "noelse": t_noelse, "addelse": t_addelse, "eqswap": t_eqswap, "ifstmt": t_ifstmt, "reprint": t_reprint, "locals": t_locals, "nparams": t_nparams, "asserts": t_asserts, "temps": t_temps, "annotate": t_annotate, "split": t_split, "flip": t_flip}
 
 
 def main():
